@@ -189,6 +189,9 @@ func TestVerifC07(t *testing.T) {
 							c.viol = fmt.Sprintf("leader %s (epoch %d) replaced after reports by %d in-sync followers out of ISR %v: not more than (|ISR|-1)/2", curLeader, curLe, cnt, isrBefore)
 						}
 						quorumSeen = map[string]bool{}
+					} else if newLe != curLe {
+						// a new leader epoch with the same leader: the failover "elected" the leader that was reported
+						c.viol = fmt.Sprintf("the failover after the report by %s re-elected the reported leader %s itself (leader epoch %d -> %d, ISR %v)", rep, curLeader, curLe, newLe, isrBefore)
 					}
 				}
 			case "expire":
